@@ -11,6 +11,10 @@ Protocol (line oriented, stdin/stdout):
      STATES2 <values...>
      PRELOAD0 <idx> <value> ...      PRELOAD1 ...
      EXTVAL0 <idx> <value> ...       EXTVAL1 ...
+     POISON 0|1                      (optional; 1 = external entries are set to NaN before the first method and after
+                                      the arrays have been reported following each method)
+  Callback invocations are reported as  XC <point> <index> <stage> <voi> | <states> | <variables>
+  (stage 0 = initialise_variables, 1 = compute_rates, 2 = compute_variables).
   response: lines KEY values..., terminated by END. ERROR <text> on failure (still followed by END).
 """
 import math
@@ -38,6 +42,7 @@ def run(reqfile, out):
     states2 = [float(x) for x in req.get("STATES2", []) if x != ""]
     preload = [pairs(req.get("PRELOAD0", [])), pairs(req.get("PRELOAD1", []))]
     extval = [dict(pairs(req.get("EXTVAL0", []))), dict(pairs(req.get("EXTVAL1", [])))]
+    poison = ext and req.get("POISON", ["0"])[0] == "1"
     stat = {"resid": 0.0, "calls": 0}
 
     def nla_solve(objective_function, u, n, data):
@@ -56,14 +61,21 @@ def run(reqfile, out):
     exec(compile(code, "model.py", "exec"), ns)
 
     point = [0]
+    stage = [0]
     trace = []
+
+    def poison_externals(variables):
+        if poison:
+            for i in extval[0]:
+                variables[i] = math.nan
 
     def external_variable(*args):
         index = args[-1]
         variables = args[-2]
         trace.append("%d:%d" % (point[0], index))
         st = args[1] if len(args) == 5 else []
-        out.write("XC %d %d | %s | %s\n" % (point[0], index, fmt(st), fmt(variables)))
+        voi_seen = float(args[0]) if len(args) == 5 else math.nan
+        out.write("XC %d %d %d %r | %s | %s\n" % (point[0], index, stage[0], voi_seen, fmt(st), fmt(variables)))
         return extval[point[0]].get(index, math.nan)
 
     def info_line(tag, e):
@@ -79,6 +91,7 @@ def run(reqfile, out):
     for e in ns["VARIABLE_INFO"]:
         info_line("VARIABLE_INFO", e)
     variables = ns["create_variables_array"]()
+    poison_externals(variables)
     if ode:
         states = ns["create_states_array"]()
         rates = ns["create_states_array"]()
@@ -93,6 +106,7 @@ def run(reqfile, out):
         else:
             ns["initialise_variables"](variables)
     out.write("INIT_VARS " + fmt(variables) + "\n")
+    poison_externals(variables)
     for i, v in preload[0]:
         variables[i] = v
     ns["compute_computed_constants"](variables)
@@ -106,22 +120,28 @@ def run(reqfile, out):
             for i, v in preload[1]:
                 variables[i] = v
         if ode:
+            stage[0] = 1
             if ext:
                 ns["compute_rates"](voi[p], states, rates, variables, external_variable)
             else:
                 ns["compute_rates"](voi[p], states, rates, variables)
             out.write("RATES%d " % p + fmt(rates) + "\n")
+            out.write("VARSR%d " % p + fmt(variables) + "\n")
+            poison_externals(variables)
+            stage[0] = 2
             if ext:
                 ns["compute_variables"](voi[p], states, rates, variables, external_variable)
             else:
                 ns["compute_variables"](voi[p], states, rates, variables)
             out.write("STATES%d " % p + fmt(states) + "\n")
         else:
+            stage[0] = 2
             if ext:
                 ns["compute_variables"](variables, external_variable)
             else:
                 ns["compute_variables"](variables)
         out.write("VARS%d " % p + fmt(variables) + "\n")
+        poison_externals(variables)
     out.write("RESID %r %d\n" % (stat["resid"], stat["calls"]))
     out.write("EXTCALLS " + " ".join(trace) + "\n")
 
